@@ -37,6 +37,7 @@ func runC03(r *an.Run) {
 	compiledProgramReadOnly(r, "R7-compiled-program-is-read-only")
 	c01AllMatchesReplaced(r)
 	relabel(r, "R2-every-match-replaced", "R8-every-site-rewritten")
+	candidateHandedDown(r, "R9-captured-code-is-the-candidate-itself")
 }
 
 func c03Siblings(r *an.Run) {
@@ -609,6 +610,57 @@ func compiledProgramReadOnly(r *an.Run, rule string) {
 			r.Fail(short(f)+"|write|"+an.Path(addr), in.Pos(), "%s, reachable while matching/replacing, writes to %s: the compiled patch is shared by all files and all Apply calls and must not change after compilation", short(f), what)
 		}
 	}
+	// append: writes into the backing array of its first argument when there is
+	// spare capacity. A slice held by the compiled program (or a re-slice of it)
+	// must never be appended to while matching / replacing.
+	nApp := 0
+	for _, f := range fns {
+		if an.FuncPkgPath(f) != enginePath {
+			continue
+		}
+		for _, c := range an.CallsTo(f, "builtin:append") {
+			nApp++
+			for _, o := range sliceOrigins(c.Common().Args[0]) {
+				root := an.Root(o)
+				for {
+					if u, ok := root.(*ssa.UnOp); ok {
+						root = an.Root(u.X)
+						continue
+					}
+					break
+				}
+				if _, isLoad := o.(*ssa.UnOp); !isLoad {
+					continue // a fresh slice, nil, a parameter slice, a call result
+				}
+				shared, what := false, ""
+				switch x := root.(type) {
+				case *ssa.Global:
+					shared, what = true, "package-level variable "+x.Name()
+				case *ssa.Parameter:
+					if isCompiled(x.Type()) {
+						shared, what = true, "field "+an.Path(o)+" of compiled-program type "+an.ShortType(x.Type())
+					}
+				case *ssa.Alloc:
+					if isCompiledCell(x.Type(), isCompiled) {
+						shared, what = true, "field "+an.Path(o)+" of the receiver copy (the backing array is shared with the compiled program)"
+					}
+				case *ssa.FreeVar:
+					if isCompiled(x.Type()) || isCompiledCell(x.Type(), isCompiled) {
+						shared, what = true, "field of captured "+x.Name()
+					}
+				}
+				if !shared {
+					continue
+				}
+				if recv := recvValue(f); recv != nil && root == ssa.Value(recv) && strings.Contains(an.ShortType(recv.Type()), "ompiler") && privateCompilerOnly(r, f) {
+					continue // a compiler filling its own lists (created per capture at match time)
+				}
+				nBad++
+				r.Fail(short(f)+"|append|"+an.Path(o), c.Pos(), "%s, reachable while matching/replacing, appends to a slice that is (a re-slice of) %s: with spare capacity append writes into the shared backing array, so one Match overwrites what another handed out", short(f), what)
+			}
+		}
+	}
+	r.Count("appends inspected", nApp)
 	// sort.* / in-place mutators on compiled state
 	for _, f := range fns {
 		if an.FuncPkgPath(f) != enginePath || compileTimeOnly(r, f) {
